@@ -37,7 +37,7 @@ func (w *Worker) pendingCall(s *State, f *Frame) (string, []Value, bool) {
 
 func isJoin(w *Worker, s *State, f *Frame) bool {
 	n, _, ok := w.pendingCall(s, f)
-	return ok && n == rtPath+".Join"
+	return ok && strings.HasSuffix(n, "/zzverif/verifrt.Join")
 }
 
 func (s *State) othersDone() bool {
@@ -96,7 +96,7 @@ func (w *Worker) visibleSig(s *State, f *Frame) (sig OpSig, visible bool, enable
 			en = wn == 0
 		}
 		return OpSig{kind: "write", cell: "rw/" + mk}, true, en
-	case n == rtPath+".Yield":
+	case strings.HasSuffix(n, "/zzverif/verifrt.Yield"):
 		return OpSig{kind: "write", cell: "yield"}, true, true
 	}
 	return OpSig{}, false, true
